@@ -192,7 +192,7 @@ def _cfg_rolling(tier, seed):
         {"pshape": (1, 2), "region": "given", "shape": (2, 1)},
         {"pshape": (2, 2), "region": "inferred", "shape": (1, 1)},
         {"pshape": (1,), "region": "given", "maxq": "5/2", "adjust": "spacing"},
-        {"pshape": (2,), "region": "given", "maxq": "3/2", "adjust": "spacing"},
+        {"pshape": (2,), "region": "given", "maxq": "1", "adjust": "spacing"},
     ]
 
 
